@@ -48,6 +48,8 @@ def lty(t):
         return "(" + " × ".join(lty(x) for x in t[1:]) + ")"
     if t[0] == "AssocL":
         return "(List (%s × %s))" % (lty(t[1]), lty(t[2]))
+    if t[0] == "ODict":
+        return "(List (%s × %s))" % (lty(t[1]), lty(t[2]))
     if t[0] == "Set":
         return "(List %s)" % lty(t[1])
     if t[0] == "MultiL":
@@ -106,6 +108,36 @@ class Proc(object):
         self.fixed = list(spec.get("implicit", []))      # [(lean name, type)] extra leading parameters (opaque operations)
 
     # ---------------------------------------------------------------------------------------------------------------- helpers
+    def proc_key(self, fname):
+        """(file, function name) a called name stands for: the same source file, or the file and original name it is imported from (spec["imports"], checked
+        against the module's import statements in gen_logic)"""
+        imp = self.spec.get("imports", {}).get(fname)
+        if imp:
+            return (imp[0], imp[1])
+        return (self.spec["file"], fname)
+
+    def norm_call(self, c, fname):
+        """keyword arguments of a call of a translated function made positional (a parameter that is skipped is the placeholder name `__default__`)"""
+        key = self.proc_key(fname) if fname else None
+        if not c.keywords or key not in self.procs:
+            return c
+        names = [n for n, _ in self.procs[key]["params"] if n != "self" and not n.startswith("self.")]
+        kw = dict((k.arg, k.value) for k in c.keywords)
+        if any(k not in names for k in kw) or len(c.args) > len(names):
+            raise Untranslatable("keyword arguments of %s" % fname)
+        args = list(c.args)
+        for n in names[len(c.args):]:
+            if n in kw:
+                args.append(kw.pop(n))
+            else:
+                args.append(ast.Name(id="__default__", ctx=ast.Load()))
+        if kw:
+            raise Untranslatable("argument of %s given twice" % fname)
+        while args and isinstance(args[-1], ast.Name) and args[-1].id == "__default__":
+            args.pop()
+        new = ast.Call(func=c.func, args=args, keywords=[])
+        return ast.copy_location(new, c)
+
     def seg(self, e):
         s = ast.get_source_segment(self.src, e)
         return None if s is None else s.replace(" ", "")
@@ -148,7 +180,7 @@ class Proc(object):
             return "[]"
         if ty == "EmptySet" and isinstance(want, tuple) and want[0] == "Set":
             return "[]"
-        if ty == "EmptyDict" and isinstance(want, tuple) and want[0] in ("AssocL", "MultiL"):
+        if ty == "EmptyDict" and isinstance(want, tuple) and want[0] in ("AssocL", "MultiL", "ODict"):
             return "[]"
         if isinstance(ty, tuple) and ty[0] == "Prod" and isinstance(want, tuple) and want[0] == "Prod" and len(ty) == len(want):
             # componentwise coercion needs the components: only done for literal tuples (see expr Tuple) - reaching here is a mismatch
@@ -185,7 +217,7 @@ class Proc(object):
         if isinstance(e, ast.Name):
             if e.id in env.vars:
                 return env.vars[e.id]
-            p = self.procs.get((self.spec["file"], e.id))
+            p = self.procs.get(self.proc_key(e.id))
             if p is not None and not p.get("implicit") and not any(n.startswith("self") for n, _ in p["params"]):
                 # a translated module-level function used as a value (handed to another function)
                 return (p["name"], ("Fun", [t for _, t in p["params"]], p["ret"]))
@@ -265,6 +297,14 @@ class Proc(object):
         if k in env.vars:
             return env.vars[k]
         base, bty = self.expr(e.value, env)
+        if isinstance(bty, tuple) and bty[0] == "Rec" and (bty[1], e.attr) in self.spec.get("properties", {}):
+            # a property of the object, translated on its own (spec["properties"]: (record, attribute) -> (file, function name))
+            pk = self.spec["properties"][(bty[1], e.attr)]
+            cands = [self.procs[pk]] + list(self.procs[pk].get("variants", []))
+            for pp in cands:
+                if pp["params"][0][1] == bty:
+                    return ("(%s %s)" % (pp["name"], base), pp["ret"])
+            raise Untranslatable("property %s is not translated for %s" % (e.attr, bty[1]))
         if isinstance(bty, tuple) and bty[0] == "Rec":
             fields = self.spec.get("records", {}).get(bty[1], {})
             if e.attr in fields:
@@ -393,8 +433,27 @@ class Proc(object):
 
     def call(self, e, env):
         f = e.func
+        if e.keywords and isinstance(f, ast.Name) and f.id in self.spec.get("rec_constructors", {}) and not e.args \
+                and [k.arg for k in e.keywords] == self.spec.get("rec_fields", {}).get(f.id):
+            # a namedtuple built with all its fields by keyword, in field order
+            e = ast.copy_location(ast.Call(func=f, args=[k.value for k in e.keywords], keywords=[]), e)
+        if e.keywords:
+            nm0 = f.id if isinstance(f, ast.Name) else (f.attr if isinstance(f, ast.Attribute) and isinstance(f.value, ast.Name) and f.value.id in ("self", "cls") else None)
+            e = self.norm_call(e, nm0)
         if e.keywords:
             raise Untranslatable("keyword arguments")
+        if isinstance(f, ast.Attribute) and f.attr == "join" and len(e.args) == 1 and isinstance(f.value, ast.Constant) and f.value.value == "" \
+                and isinstance(e.args[0], ast.Call) and isinstance(e.args[0].func, ast.Attribute) and e.args[0].func.attr == "split" and not e.args[0].args:
+            # "".join(x.split()): x without its white space - an operation handed to the translated function
+            m = self.spec.get("methods", {}).get(("Str", "remove_whitespace"))
+            t, ty = self.expr(e.args[0].func.value, env)
+            if m and ty == "Str":
+                return ("(%s %s)" % (m[0], t), "Str")
+        if isinstance(f, ast.Attribute) and isinstance(f.value, ast.Call) and isinstance(f.value.func, ast.Name) and f.value.func.id == "super" \
+                and f.attr in self.spec.get("super_calls", {}):
+            # super(Class, self).method(...): the base class's method, translated on its own under the declared name
+            target = self.procs[("name", self.spec["super_calls"][f.attr])]
+            return self.call_proc(target, f.attr, ast.Name(id=f.attr, ctx=ast.Load()), e, env)
         fname = None
         if isinstance(f, ast.Name):
             fname = f.id
@@ -422,8 +481,8 @@ class Proc(object):
             if len(args) != len(argtys):
                 raise Untranslatable("arity of %s" % fname)
             return ("(%s %s)" % (lname, " ".join(args)), rty)
-        if (self.spec["file"], fname) in self.procs:
-            p0 = self.procs[(self.spec["file"], fname)]
+        if fname is not None and self.proc_key(fname) in self.procs:
+            p0 = self.procs[self.proc_key(fname)]
             cands = [p0] + list(p0.get("variants", []))
             last = None
             for p in cands:
@@ -452,9 +511,12 @@ class Proc(object):
                         raise Untranslatable("%s needs %s, which the caller does not have" % (fname, n))
                     args.append(self.coerce(env.vars[n][0], env.vars[n][1], t))
                 else:
-                    if not actual:
+                    if not actual or (isinstance(actual[0], ast.Name) and actual[0].id == "__default__"):
+                        if actual:
+                            actual.pop(0)
                         if n in p.get("defaults", {}):
-                            args.append(p["defaults"][n])      # the parameter's default value, as declared (checked against the source in gen_logic)
+                            dflt = p["defaults"][n]
+                            args.append(dflt[0] if isinstance(dflt, tuple) else dflt)      # the parameter's default value, as declared (checked against the source in gen_logic)
                             continue
                         raise Untranslatable("arity of %s" % fname)
                     args.append(self.coerce(*self.expr(actual.pop(0), env), t))
@@ -482,7 +544,7 @@ class Proc(object):
                     return ("%s.%s" % (t, fld[0]), "Bool")
             raise Untranslatable("hasattr on %s" % (ty,))
         # method of a record / call of a callable field: an opaque operation declared for (record, attribute); the receiver is its first argument
-        if isinstance(f, ast.Attribute) and not (isinstance(f.value, ast.Name) and f.value.id in ("self", "cls") and (self.spec["file"], f.attr) in self.procs):
+        if isinstance(f, ast.Attribute) and not (isinstance(f.value, ast.Name) and f.value.id in ("self", "cls") and self.proc_key(f.attr) in self.procs):
             try:
                 recv, rty = self.expr(f.value, env)
             except Untranslatable:
@@ -581,6 +643,22 @@ class Proc(object):
             return ("(bisectLeft %s %s)" % (rows, self.coerce(*self.expr(e.args[1], env), "Rat")), "Int")
         if fname == "tuple" and len(e.args) == 1:
             return self.expr(e.args[0], env)
+        if self.seg(f) in ("collections.OrderedDict", "OrderedDict", "dict") and not e.args:
+            return ("[]", "EmptyDict")
+        if self.seg(f) == "itertools.chain.from_iterable" and len(e.args) == 1:
+            t, ty = self.expr(e.args[0], env)
+            if isinstance(ty, tuple) and ty[0] == "List" and isinstance(ty[1], tuple) and ty[1][0] == "List":
+                return ("%s.flatten" % t, ty[1])
+            raise Untranslatable("chain.from_iterable of %s" % (ty,))
+        if isinstance(f, ast.Attribute) and f.attr == "values" and not e.args and isinstance(f.value, ast.Name) and f.value.id in env.vars \
+                and isinstance(env.vars[f.value.id][1], tuple) and env.vars[f.value.id][1][0] == "ODict":
+            d, dty = env.vars[f.value.id]
+            return ("(%s.map fun e => e.2)" % d, ("List", dty[2]))
+        if isinstance(f, ast.Attribute) and f.attr in ("split", "rsplit") and len(e.args) == 2 and isinstance(e.args[0], ast.Constant) and isinstance(e.args[0].value, str) \
+                and len(e.args[0].value) == 1 and isinstance(e.args[1], ast.Constant) and e.args[1].value == 1:
+            t, ty = self.expr(f.value, env)
+            if ty == "Str":
+                return ("(%s %s '%s')" % ("pySplitFirst" if f.attr == "split" else "pyRSplitLast", t, e.args[0].value), ("List", "Str"))
         if fname == "set" and not e.args:
             # a set that the function only adds to, tests membership of and sorts: the list of its distinct members in order of first insertion
             # (`.add` -> setAdd); iterating over it directly is refused (Python leaves that order unspecified)
@@ -842,8 +920,9 @@ class Proc(object):
             return (c.args[idx].id, vt, vty, False)
         # a writer called for its effect on a stream argument
         fname = f.id if isinstance(f, ast.Name) else (f.attr if isinstance(f, ast.Attribute) and isinstance(f.value, ast.Name) and f.value.id in ("self", "cls") else None)
-        p = self.procs.get((self.spec["file"], fname))
+        p = self.procs.get(self.proc_key(fname)) if fname else None
         if p is not None and p.get("inout"):
+            c = self.norm_call(c, fname)
             names = [n for n, _ in p["params"] if not n.startswith("self.") and n != "self"]
             if len(c.args) > len(names) or any(n not in p.get("defaults", {}) for n in names[len(c.args):]):
                 raise Untranslatable("arity of %s" % fname)
@@ -893,6 +972,15 @@ class Proc(object):
                     raise Untranslatable("comparison of a %s with None" % lty(ty))
                 # already narrowed: the test is decided
                 return (kt if isinstance(e.ops[0], (ast.IsNot, ast.NotEq)) else kf)(env)
+        # <attribute chain> is None / is not None: the branch where it is not None knows the value
+        if isinstance(e, ast.Compare) and len(e.ops) == 1 and isinstance(e.ops[0], (ast.Is, ast.IsNot)) \
+                and isinstance(e.comparators[0], ast.Constant) and e.comparators[0].value is None and isinstance(e.left, ast.Attribute):
+            t, ty = self.expr(e.left, env)
+            if isinstance(ty, tuple) and ty[0] == "Opt":
+                n = env.fresh("val")
+                known = env.fact(self.seg(e.left), n, ty[1])
+                a, b = (kt(env), kf(known)) if isinstance(e.ops[0], ast.Is) else (kf(env), kt(known))
+                return "(match %s with\n| none => %s\n| some %s => %s)" % (t, a, n, b)
         # truthiness of a bare name: Optional object / list
         if isinstance(e, ast.Name) and e.id in env.vars:
             lean, ty = env.vars[e.id]
@@ -958,6 +1046,14 @@ class Proc(object):
         s, rest = stmts[0], stmts[1:]
         if isinstance(s, ast.Expr) and isinstance(s.value, ast.Constant):
             return self.block(rest, env, k)                      # docstring
+        if self.spec.get("drop_logging"):
+            # logger = logging.getLogger(..)...  /  logger.info(..) / logger.warning(..): no effect on what the function computes
+            if isinstance(s, ast.Assign) and len(s.targets) == 1 and isinstance(s.targets[0], ast.Name) and s.targets[0].id == "logger" \
+                    and (ast.get_source_segment(self.src, s.value) or "").startswith("logging.getLogger("):
+                return self.block(rest, env, k)
+            if isinstance(s, ast.Expr) and isinstance(s.value, ast.Call) and isinstance(s.value.func, ast.Attribute) and isinstance(s.value.func.value, ast.Name) \
+                    and s.value.func.value.id == "logger" and s.value.func.attr in ("info", "warning", "debug"):
+                return self.block(rest, env, k)
         if isinstance(s, ast.Pass):
             return self.block(rest, env, k)
         if isinstance(s, ast.Return):
@@ -1022,6 +1118,12 @@ class Proc(object):
                 key = self.coerce(*self.expr(s.targets[0].slice, env), dty[1])
                 val = self.coerce(*self.expr(s.value, env), dty[2])
                 txt, en = self.assign_name(s.targets[0].value, "(%s ++ [(%s, %s)])" % (dt, key, val), dty, env)
+                return txt + self.block(rest, en, k)
+            if isinstance(dty, tuple) and dty[0] == "ODict":
+                # an (ordered) dictionary whose VALUES are listed later: a key that is present keeps its position and gets the new value
+                key = self.coerce(*self.expr(s.targets[0].slice, env), dty[1])
+                val = self.coerce(*self.expr(s.value, env), dty[2])
+                txt, en = self.assign_name(s.targets[0].value, "(odictSet %s %s %s)" % (dt, key, val), dty, env)
                 return txt + self.block(rest, en, k)
             raise Untranslatable("subscript assignment to %s" % (dty,))
         if isinstance(s, ast.Assign) and len(s.targets) == 1 and isinstance(s.targets[0], ast.Name) and s.targets[0].id in self.spec.get("absent_objects", {}):
@@ -1398,6 +1500,15 @@ EAM_REC = {"EamRec": {"species": ("species", "Str"), "atomicNumber": ("atomicNum
                       "latticeType": ("latticeType", "Str"), "embeddingFunction": ("embed", ("Rec", "FnRec")), "electronDensityFunction": ("dens", ("Rec", "FnRec"))},
            "FnRec": {}}
 EAM_METHODS = {("FnRec", "__call__"): ("evalFnOV", ["Rat"], "OV"), ("EamRec", "embeddingFunction"): ("embedOf", ["Rat"], "OV")}
+EAMTAB_REC = dict(EAM_REC, **dict(POT_REC, EamTabRec={"nr": ("nr", "Int"), "cutoff": ("cutoff", "Rat"), "nrho": ("nrho", "Int"), "cutoff_rho": ("cutoff_rho", "Rat"),
+                                                       "eam_potentials": ("eam_potentials", ("List", ("Rec", "EamRec"))), "potentials": ("potentials", ("List", ("Rec", "PotRec"))),
+                                                       "dipole_potentials": ("dipole_potentials", ("List", ("Rec", "PotRec"))),
+                                                       "quadrupole_potentials": ("quadrupole_potentials", ("List", ("Rec", "PotRec")))}))
+EAMTAB_PROPS = {("EamTabRec", "dr"): ("pair_tabulation.py", "dr"), ("EamTabRec", "drho"): ("eam_tabulation.py", "drho")}
+CP_REC = {"CpRec": {"tabulation": ("tabulation", ("Rec", "TabSec"))},
+          "TabSec": {"cutoff": ("cutoff", ("Opt", "Rat")), "nr": ("nr", ("Opt", "Int")), "cutoff_rho": ("cutoff_rho", ("Opt", "Rat")), "nrho": ("nrho", ("Opt", "Int"))},
+          "RCut": {"cutoff": ("cutoff", "Rat"), "nr": ("nr", "Int")},
+          "RRhoCut": {"cutoff": ("cutoff", "Rat"), "nr": ("nr", "Int"), "cutoff_rho": ("cutoff_rho", "Rat"), "nrho": ("nrho", "Int")}}
 CFG_REC = {"CfgRec": {}}
 CFG_METHODS = {("CfgRec", "has_section"): ("cfgHas", ["Str"], "Bool"), ("CfgRec", "__getitem__"): ("cfgKeys", ["Str"], ("List", "Str")),
                ("CfgRec", "sections"): ("cfgSections", [], ("List", "Str"))}
@@ -1488,10 +1599,10 @@ PROCS = [
                  ("comments", ("List", "Str")), ("out", "Stream"),
                  ("writeDensityFunction", ("Fun", [("Rec", "EamRec"), ("List", ("Rec", "EamRec")), "Int", "Rat", "Stream"], "Stream"))], ret="Stream",
          records=dict(EAM_REC, **POT_REC), methods=EAM_METHODS, inout_calls={"writeDensityFunction": 4}),
-    dict(name="setfl_write_alloy", dest=True, file="_lammpsWriteEAM.py", func="writeSetFL", writer=True, inout="out",
+    dict(name="setfl_write_alloy", dest=True, defaults={"comments": ('["", "", ""]', "['', '', '']"), "cutoff": ("none", "None")}, file="_lammpsWriteEAM.py", func="writeSetFL", writer=True, inout="out",
          params=[("nrho", "Int"), ("drho", "Rat"), ("nr", "Int"), ("dr", "Rat"), ("eampots", ("List", ("Rec", "EamRec"))), ("pairpots", ("List", ("Rec", "PotRec"))),
                  ("out", "Stream"), ("comments", ("List", "Str")), ("cutoff", ("Opt", "Rat"))], ret="Stream", records=dict(EAM_REC, **POT_REC), retype=["cutoff"]),
-    dict(name="setfl_write_fs", dest=True, file="_lammpsWriteEAM.py", func="writeSetFLFinnisSinclair", writer=True, inout="out",
+    dict(name="setfl_write_fs", dest=True, defaults={"comments": ('["", "", ""]', "['', '', '']"), "cutoff": ("none", "None")}, file="_lammpsWriteEAM.py", func="writeSetFLFinnisSinclair", writer=True, inout="out",
          params=[("nrho", "Int"), ("drho", "Rat"), ("nr", "Int"), ("dr", "Rat"), ("eampots", ("List", ("Rec", "EamRec"))), ("pairpots", ("List", ("Rec", "PotRec"))),
                  ("out", "Stream"), ("comments", ("List", "Str")), ("cutoff", ("Opt", "Rat"))], ret="Stream", records=dict(EAM_REC, **POT_REC), retype=["cutoff"]),
     dict(name="tabeam_tabulate", file="_dlpoly_writeTABEAM.py", func="_tabulateFunction", writer=True, inout="outputfile",
@@ -1517,13 +1628,44 @@ PROCS = [
     dict(name="tabeam_except_density", file="_dlpoly_writeTABEAM.py", func="_writeTABEAM_exceptDensity", writer=True, inout="outputbuilder",
          params=[("nrho", "Int"), ("drho", "Rat"), ("nr", "Int"), ("dr", "Rat"), ("eamPotentials", ("List", ("Rec", "EamRec"))), ("pairPotentials", ("List", ("Rec", "PotRec"))),
                  ("title", "Str"), ("numpots", "Rat"), ("outputbuilder", "Stream")], ret="Stream", records=dict(EAM_REC, **POT_REC), methods=EAM_METHODS),
-    dict(name="tabeam_write", dest=True, file="_dlpoly_writeTABEAM.py", func="writeTABEAM", writer=True, inout="out",
+    dict(name="tabeam_write", dest=True, defaults={"title": ('""', "''")}, file="_dlpoly_writeTABEAM.py", func="writeTABEAM", writer=True, inout="out",
          params=[("nrho", "Int"), ("drho", "Rat"), ("nr", "Int"), ("dr", "Rat"), ("eampots", ("List", ("Rec", "EamRec"))), ("pairpots", ("List", ("Rec", "PotRec"))),
                  ("out", "Stream"), ("title", "Str")], ret="Stream", records=dict(EAM_REC, **POT_REC), methods=EAM_METHODS, locals={"numpots": "Rat"}),
-    dict(name="tabeam_write_fs", dest=True, file="_dlpoly_writeTABEAM.py", func="writeTABEAMFinnisSinclair", writer=True, inout="out",
+    dict(name="tabeam_write_fs", dest=True, defaults={"title": ('""', "''")}, file="_dlpoly_writeTABEAM.py", func="writeTABEAMFinnisSinclair", writer=True, inout="out",
          params=[("nrho", "Int"), ("drho", "Rat"), ("nr", "Int"), ("dr", "Rat"), ("eampots", ("List", ("Rec", "EamRec"))), ("pairpots", ("List", ("Rec", "PotRec"))),
                  ("out", "Stream"), ("title", "Str")], ret=("Except", "WErr", "Stream"), records=dict(EAM_REC, **POT_REC), methods=EAM_METHODS, locals={"numpots": "Rat"},
          try_subscripts={("EamRec", "electronDensityFunction"): ("densOfOpt", "Str", ("Rec", "FnRec"))}, raises=[("Density function for", "WErr.missingDensity")]),
+    # ---- the tabulation objects: their step properties and their write methods (C01-C05, C19; destination mode for C17)
+    dict(name="tab_dr", file="pair_tabulation.py", func="PairTabulation_AbstractBase.dr", params=[("self", ("Rec", "TabRec"))], ret="Rat", records=TAB_REC),
+    dict(name="eamtab_dr", variant=True, file="pair_tabulation.py", func="PairTabulation_AbstractBase.dr", params=[("self", ("Rec", "EamTabRec"))], ret="Rat", records=EAMTAB_REC),
+    dict(name="eamtab_drho", file="eam_tabulation.py", func="_EAMTabulationAbstractbase.drho", params=[("self", ("Rec", "EamTabRec"))], ret="Rat", records=EAMTAB_REC),
+    dict(name="lammps_tab_write", dest=True, file="pair_tabulation.py", func="LAMMPS_PairTabulation.write", writer=True, inout="fp",
+         params=[("self", ("Rec", "TabRec")), ("fp", "Stream")], ret="Stream", records=dict(POT_REC, **TAB_REC), properties={("TabRec", "dr"): ("pair_tabulation.py", "dr")},
+         imports={"lmp_writePotentials": ("_lammps_writeTABLE.py", "writePotentials")}),
+    dict(name="dlpoly_tab_write", dest=True, file="pair_tabulation.py", func="DLPoly_PairTabulation.write", writer=True, inout="fp",
+         params=[("self", ("Rec", "TabRec")), ("fp", "Stream")], ret=("Except", "WErr", "Stream"), records=dict(POT_REC, **TAB_REC),
+         imports={"dlpoly_writePotentials": ("_dlpoly_writeTABLE.py", "writePotentials")}),
+    dict(name="setfl_tab_write", dest=True, file="eam_tabulation.py", func="SetFL_EAMTabulation.write", writer=True, inout="fp",
+         params=[("self", ("Rec", "EamTabRec")), ("fp", "Stream")], ret="Stream", records=EAMTAB_REC, properties=EAMTAB_PROPS,
+         imports={"writeSetFL": ("_lammpsWriteEAM.py", "writeSetFL")}),
+    dict(name="setfl_fs_tab_write", dest=True, file="eam_tabulation.py", func="SetFL_FS_EAMTabulation.write", writer=True, inout="fp",
+         params=[("self", ("Rec", "EamTabRec")), ("fp", "Stream")], ret="Stream", records=EAMTAB_REC, properties=EAMTAB_PROPS,
+         imports={"writeSetFLFinnisSinclair": ("_lammpsWriteEAM.py", "writeSetFLFinnisSinclair")}),
+    dict(name="tabeam_tab_write", dest=True, file="eam_tabulation.py", func="TABEAM_EAMTabulation.write", writer=True, inout="fp",
+         params=[("self", ("Rec", "EamTabRec")), ("fp", "Stream")], ret="Stream", records=EAMTAB_REC, properties=EAMTAB_PROPS,
+         imports={"writeTABEAM": ("_dlpoly_writeTABEAM.py", "writeTABEAM")}),
+    dict(name="tabeam_fs_tab_write", dest=True, file="eam_tabulation.py", func="TABEAM_FinnisSinclair_EAMTabulation.write", writer=True, inout="fp",
+         params=[("self", ("Rec", "EamTabRec")), ("fp", "Stream")], ret=("Except", "WErr", "Stream"), records=EAMTAB_REC, properties=EAMTAB_PROPS,
+         imports={"writeTABEAMFinnisSinclair": ("_dlpoly_writeTABEAM.py", "writeTABEAMFinnisSinclair")}),
+    dict(name="adp_write_dipole", file="eam_tabulation.py", func="ADP_EAMTabulation._write_dipole", writer=True, inout="fp",
+         params=[("self", ("Rec", "EamTabRec")), ("fp", "Stream")], ret="Stream", records=EAMTAB_REC, properties=EAMTAB_PROPS,
+         imports={"_writeSetFLPairPots": ("_lammpsWriteEAM.py", "_writeSetFLPairPots")}),
+    dict(name="adp_write_quadrupole", file="eam_tabulation.py", func="ADP_EAMTabulation._write_quadrupole", writer=True, inout="fp",
+         params=[("self", ("Rec", "EamTabRec")), ("fp", "Stream")], ret="Stream", records=EAMTAB_REC, properties=EAMTAB_PROPS,
+         imports={"_writeSetFLPairPots": ("_lammpsWriteEAM.py", "_writeSetFLPairPots")}),
+    dict(name="adp_tab_write", dest=True, file="eam_tabulation.py", func="ADP_EAMTabulation.write", writer=True, inout="fp",
+         params=[("self", ("Rec", "EamTabRec")), ("fp", "Stream")], ret="Stream", records=EAMTAB_REC, properties=EAMTAB_PROPS,
+         imports={"writeSetFL": ("_lammpsWriteEAM.py", "writeSetFL")}),
     # ---- C13: species filter
     dict(name="check_tuple", file="config/_filtered_config_parser.py", func="FilteredConfigParser._check_tuple",
          params=[("self._self_species_list", ("List", "Str")), ("self._self_exclude_flag", "Bool"), ("check_tuple", ("List", "Str"))], ret="Bool"),
@@ -1589,6 +1731,31 @@ PROCS = [
                    ("setValue", ("Fun", [("Rec", "IniRec"), ("Rec", "OvRec")], ("Except", "OvErr", ("Rec", "IniRec"))))],
          ops={"_set_value": ("setValue", [("Rec", "IniRec"), ("Rec", "OvRec")], ("Except", "OvErr", ("Rec", "IniRec")))}, inout_calls={"_set_value": 0},
          raises=[("not found in configuration file when processing overrides", "OvErr.missing"), ("already exists in configuration file whilst adding", "OvErr.exists")]),
+    # ---- C14: the command-line layer
+    dict(name="create_override_tuple", file="tools/potable/__init__.py", func="_create_override_tuple",
+         params=[("key", "Str"), ("has_value", "Bool")], ret=("Except", "OvErr", ("Rec", "OvRec")), records=INI_REC, unpack_error="OvErr.malformedOption",
+         rec_constructors={"ConfigParserOverrideTuple": ("OvRec", ["Str", "Str", ("Opt", "Str")])}, rec_fields={"ConfigParserOverrideTuple": ["section", "key", "value"]},
+         locals={"value": ("Opt", "Str")}, defaults={"has_value": "true"}),
+    dict(name="item_id", file="tools/potable/__init__.py", func="_item_id",
+         params=[("over_tuple", ("Rec", "OvRec"))], ret=("Prod", "Str", "Str"), records=INI_REC,
+         implicit=[("removeWs", ("Fun", ["Str"], "Str"))], methods={("Str", "remove_whitespace"): ("removeWs", [], "Str")}),
+    dict(name="cli_operations", file="tools/potable/__init__.py", func="_make_config_parser", truncate_at="cp = ConfigParser(", result_vars=["overrides_list", "additional_list"],
+         params=[("cfg_file", "Unit"), ("overrides", ("Opt", ("List", ("List", "Str")))), ("additional", ("Opt", ("List", ("List", "Str")))), ("remove", ("Opt", ("List", ("List", "Str")))),
+                 ("species", "Unit"), ("exclude_flag", "Unit")],
+         ret=("Except", "OvErr", ("Prod", ("List", ("Rec", "OvRec")), ("List", ("Rec", "OvRec")))), records=INI_REC, implicit=[("removeWs", ("Fun", ["Str"], "Str"))],
+         locals={"override_dict": ("ODict", ("Prod", "Str", "Str"), ("Rec", "OvRec")), "additional_list": ("List", ("Rec", "OvRec"))}),
+    # ---- C11 / C16: the factories' defaults and layout checks
+    dict(name="pair_extract_cutoffs", file="config/_tabulation_factories.py", func="PairTabulationFactory.extract_cutoffs", drop_logging=True,
+         params=[("cp", ("Rec", "CpRec"))], ret=("Rec", "RCut"), records=CP_REC, rec_constructors={"RCutoffTuple": ("RCut", ["Rat", "Int"])}),
+    dict(name="eam_extract_cutoffs", file="config/_tabulation_factories.py", func="EAMTabulationFactory.extract_cutoffs", drop_logging=True,
+         params=[("cp", ("Rec", "CpRec"))], ret=("Rec", "RRhoCut"), records=CP_REC, rec_constructors={"R_Rho_CutoffTuple": ("RRhoCut", ["Rat", "Int", "Rat", "Int"])},
+         super_calls={"extract_cutoffs": "pair_extract_cutoffs"}),
+    dict(name="dlpoly_extract_cutoffs", file="config/_tabulation_factories.py", func="DLPOLY_PairTabulationFactory.extract_cutoffs",
+         params=[("cp", ("Rec", "CpRec"))], ret=("Except", "FactoryErr", ("Rec", "RCut")), records=CP_REC, super_calls={"extract_cutoffs": "pair_extract_cutoffs"},
+         raises=[("needs to be divisible by 4", "FactoryErr.notMultipleOfFour"), ("needs more than 4 rows", "FactoryErr.fourRowsOrFewer")]),
+    dict(name="lammps_extract_cutoffs", file="config/_tabulation_factories.py", func="LAMMPS_PairTabulationFactory.extract_cutoffs",
+         params=[("cp", ("Rec", "CpRec"))], ret=("Except", "FactoryErr", ("Rec", "RCut")), records=CP_REC, super_calls={"extract_cutoffs": "pair_extract_cutoffs"},
+         raises=[("needs at least two rows", "FactoryErr.fewerThanThreePoints")]),
     # ---- C16: target synonyms
     dict(name="init_target", file="config/_config_parser.py", func="_TabulationSection._init_target",
          params=[("target", ("Opt", "Str"))], class_dicts=["_target_synonyms"], skip_assign_from=["_get_or_none"], sig_from_locals=True,
@@ -1676,6 +1843,39 @@ structure EamRec where
   densFS : List (String × FnRec)
 deriving Repr, Inhabited
 
+/-- the `[Tabulation]` section as the factories read it (`cp.tabulation.cutoff` …: what `_TabulationCutoff` left, `None` when the model does not fix it) -/
+structure TabSec where
+  cutoff : Option Rat
+  nr : Option Int
+  cutoff_rho : Option Rat
+  nrho : Option Int
+deriving Repr, DecidableEq
+structure CpRec where
+  tabulation : TabSec
+deriving Repr, DecidableEq
+structure RCut where
+  cutoff : Rat
+  nr : Int
+deriving Repr, DecidableEq
+structure RRhoCut where
+  cutoff : Rat
+  nr : Int
+  cutoff_rho : Rat
+  nrho : Int
+deriving Repr, DecidableEq
+
+/-- an EAM tabulation object (`SetFL_EAMTabulation`, `TABEAM_EAMTabulation`, `ADP_EAMTabulation`, …) as its `write` method reads it -/
+structure EamTabRec where
+  nr : Int
+  cutoff : Rat
+  nrho : Int
+  cutoff_rho : Rat
+  eam_potentials : List EamRec
+  potentials : List PotRec
+  dipole_potentials : List PotRec
+  quadrupole_potentials : List PotRec
+deriving Repr, Inhabited
+
 /-- `pot.electronDensityFunction[species]` inside `try: … except KeyError`: the look-up as it is, absent keys included -/
 def densOfOpt (p : EamRec) (sp : String) : Option FnRec := (p.densFS.reverse.find? fun e => e.1 == sp).map (·.2)
 def evalFnOV (f : FnRec) (x : Rat) : OV := .fn "value" f.fid x
@@ -1735,7 +1935,7 @@ structure OvRec where
 deriving Repr, DecidableEq
 
 inductive OvErr where
-  | missing | exists | badValue
+  | missing | exists | badValue | malformedOption
 deriving DecidableEq, Repr
 
 /-- configuration errors of the key / duplicate checks, identified by their message (`unpack`: Python's own ValueError of `a, b = xs`) -/
@@ -1753,6 +1953,21 @@ def cfgHas (c : CfgRec) (s : String) : Bool := c.sections.any fun e => e.1 == s
 def cfgKeys (c : CfgRec) (s : String) : List String := ((c.sections.find? fun e => e.1 == s).map (·.2)).getD []
 def cfgSections (c : CfgRec) : List String := c.sections.map (·.1)
 
+/-- `d[k] = v` on an ordered dictionary whose values are listed afterwards: a present key keeps its position -/
+def odictSet {κ β : Type} [BEq κ] (d : List (κ × β)) (k : κ) (v : β) : List (κ × β) :=
+  if d.any (fun e => e.1 == k) then d.map (fun e => if e.1 == k then (k, v) else e) else d ++ [(k, v)]
+
+/-- `s.split(c, 1)`: the text before the first occurrence of the separator and the text after it, or the text alone -/
+def splitFirstChars (c : Char) : List Char → List (List Char)
+  | [] => [[]]
+  | x :: rest => if x == c then [[], rest] else
+      match splitFirstChars c rest with
+      | [] => [[x]]
+      | p :: ps => (x :: p) :: ps
+def pySplitFirst (s : String) (c : Char) : List String := (splitFirstChars c s.toList).map String.ofList
+/-- `s.rsplit(c, 1)`: the same from the right -/
+def pyRSplitLast (s : String) (c : Char) : List String := ((splitFirstChars c s.toList.reverse).map fun p => String.ofList p.reverse).reverse
+
 /-- `s.add(x)` -/
 def setAdd {α : Type} [BEq α] (s : List α) (x : α) : List α := if s.contains x then s else s ++ [x]
 
@@ -1768,6 +1983,11 @@ def splitChars (c : Char) : List Char → List (List Char)
       | [] => [[x]]
       | p :: ps => (x :: p) :: ps
 def pySplit1 (s : String) (c : Char) : List String := (splitChars c s.toList).map String.ofList
+
+/-- the layout complaints of the tabulation factories -/
+inductive FactoryErr where
+  | notMultipleOfFour | fourRowsOrFewer | fewerThanThreePoints
+deriving DecidableEq, Repr
 
 /-- stable insertion: `x` goes after every element `y` with `le y x` -/
 def insertBy {α : Type} (le : α → α → Bool) (x : α) : List α → List α
@@ -1832,6 +2052,16 @@ def prepare(spec, src, tree):
             if nm in spec.get("skip_assign_from", []):
                 continue
         body.append(st)
+    if spec.get("truncate_at"):
+        # the function's first part only: cut before the named statement, the result is the named locals (what the rest of the function is handed)
+        idx = next((i for i, st in enumerate(body) if (ast.get_source_segment(src, st) or "").replace(" ", "").startswith(spec["truncate_at"].replace(" ", ""))), None)
+        if idx is None:
+            raise Untranslatable("no statement starting with %s" % spec["truncate_at"])
+        ret = ast.Return(value=ast.Tuple(elts=[ast.Name(id=n, ctx=ast.Load()) for n in spec["result_vars"]], ctx=ast.Load()))
+        ret._synth = True
+        ast.copy_location(ret, body[idx])
+        ast.fix_missing_locations(ret)
+        body = body[:idx] + [ret]
     if spec.get("returns_attr"):
         last = body[-1]
         if not (isinstance(last, ast.Assign) and ast.get_source_segment(src, last.targets[0]) == spec["returns_attr"]):
@@ -1913,6 +2143,7 @@ def gen_logic(repo, outdir, summary, write_if_changed):
             procs[key].setdefault("variants", []).append(spec)            # the same function translated for another type of argument: chosen by the argument types
         else:
             procs[key] = spec
+        procs[("name", spec["name"])] = spec
     for spec in all_specs:
         try:
             fp = os.path.join(repo, "atsim/potentials", spec["file"])
@@ -1925,10 +2156,20 @@ def gen_logic(repo, outdir, summary, write_if_changed):
                          and ast.unparse(n.value).replace(" ", "") == "functools.cmp_to_key(%s)" % cmpf for n in tree.body)
                 if not ok:
                     raise Untranslatable("%s is not functools.cmp_to_key(%s)" % (kname, cmpf))
+            for alias, (ifile, iname) in spec.get("imports", {}).items():
+                stem = os.path.splitext(os.path.basename(ifile))[0]
+                ok = any(isinstance(n, ast.ImportFrom) and (n.module or "").split(".")[-1] == stem and any(a.name == iname and (a.asname or a.name) == alias for a in n.names)
+                         for n in tree.body)
+                if not ok:
+                    raise Untranslatable("%s is not `from .%s import %s`" % (alias, stem, iname))
             fn = prepare(spec, src, tree)
             for dn, dv in spec.get("defaults", {}).items():
                 names = [a.arg for a in fn.args.args]
                 defs = dict(zip(names[len(names) - len(fn.args.defaults):], fn.args.defaults))
+                if isinstance(dv, tuple):
+                    if dn not in defs or ast.unparse(defs[dn]).replace(" ", "") != dv[1].replace(" ", ""):
+                        raise Untranslatable("default of %s is not %s" % (dn, dv[1]))
+                    continue
                 want = {"true": True, "false": False}.get(dv, dv)
                 if dn not in defs or not isinstance(defs[dn], ast.Constant) or defs[dn].value != want:
                     raise Untranslatable("default of %s is not %s" % (dn, dv))
